@@ -1053,6 +1053,8 @@ class Interp:
                 vals, may = d.unpack(value, len(tgt.elts), tgt, state)
             if may:
                 excs.append((Exc(ORD, "ValueError", tgt.lineno), state))
+            if vals is None:
+                return [], excs  # the number of elements is known and does not fit: the assignment surely raises
             states = [state]
             for e, v in zip(tgt.elts, vals):
                 if isinstance(e, ast.Starred):
